@@ -591,7 +591,11 @@ def rule_completion(ctx):
     k = _guarded_completions(ctx, stop, "self._done_f", "stop()")
     ctx.require(k == 1, "stop(): completion of _done_f not found")
     lv = [(n, c) for n in g.stmt_nodes() for c in node_calls(n) if isinstance(c.func, ast.Attribute) and c.func.attr == "leave"]
-    ctx.ob("stop() leaves an attached session", len(lv) == 1 and ("truth", "self._session", None, True) in (mf.at(lv[0][0]) or ()), "leave not under `self._session and is_attached()`", stop.loc())
+    fl = (mf.at(lv[0][0]) or ()) if len(lv) == 1 else ()
+    ctx.ob("stop() ends a session by leave() only when it has joined (is_attached()); otherwise it completes start() itself",
+           len(lv) == 1 and ("truth", "self._session", None, True) in fl and ("truth", "self._session.is_attached()", None, True) in fl,
+           "leave() is chosen without `self._session.is_attached()`: on a session that is connected but not joined leave() does nothing, "
+           "so stop() between transport open and WELCOME never completes start()", stop.loc())
     cn = [(n, c) for n in g.stmt_nodes() for c in node_calls(n) if any(norm.text(a) == "txaio.cancel" for a in c.args) or call_name(c) == "txaio.cancel"]
     ctx.ob("stop() cancels a pending delay", len(cn) == 1 and ("truth", "self._delay_f", None, True) in (mf.at(cn[0][0]) or ()), "cancel not under `self._delay_f`", stop.loc())
     # _delay_f cleared by both continuations
